@@ -284,7 +284,7 @@ class C08(Harness):
                 vs = self.check(w, model, history, op)
         fp = None
         if not vs:
-            fp = try_fingerprint([('T', w['T']), ('S1', w['S1']), ('S2', w['S2'])], extra=repr(model))
+            fp = try_fingerprint([('T', w['T']), ('S1', w['S1']), ('S2', w['S2']), ('R', w['R'])], extra=repr(model))
         nxt = [] if vs else self.enabled(cfg, model)
         return Result(vs[:4], fp=fp, next_ops=nxt, outcome=repr((model['link'], model['src'])), hits=hits)
 
